@@ -450,6 +450,7 @@ func (cr *checkRun) discharge(j *OblResult) {
 			for k, n := range names0 {
 				if strings.HasSuffix(n, ".len") {
 					bounds = append(bounds, ts.Le(vals0[k], ts.NumLit(bigInt(replayMaxElems), vals0[k].S), true))
+					bounds = append(bounds, ts.Le(ts.NumLit(bigInt(0), vals0[k].S), vals0[k], true))
 				}
 			}
 			if len(bounds) > 0 {
